@@ -104,6 +104,20 @@ func (ev *evaluator) eval(c *Case, trace bool) Verdict {
 				v, _ = w.run(c, trace)
 			}
 		}
+		if (v.Kind == "inconclusive" || v.Kind == "artefact") && strings.Contains(v.Reason, "real-time watchdog") && ev.p.LivenessClaimed && (c.Prop == "C04" || c.Prop == "C06" || c.Prop == "C07") && c.Engine == "" {
+			// a mutex waiter in the dump: test-clock artefact or real deadlock? Decide on the real clock.
+			cv := confirmRealtime(c)
+			if ev.stats != nil {
+				ev.stats.Labels["realtime_confirmation:"+cv.Kind]++
+			}
+			switch cv.Kind {
+			case "hang":
+				cv.Stderr = v.Stderr
+				v = cv
+			case "ok":
+				v.Kind = "artefact"
+			}
+		}
 		if ev.stats != nil {
 			ev.stats.Executions++
 		}
